@@ -23,7 +23,7 @@ RULE = ("one case = a history of calls (net_io_counters / disk_io_counters, nowr
         "wrap, a disappear/reappear or a cache_clear, resp. schedule with >=2 context switches; distinct by history hash")
 ASSUMPTIONS = [
     "a device 'stays present' when it is listed in every snapshot handed to consecutive nowrap=True calls of that function",
-    "concurrent callers: results must be explainable by some serial order of the calls (each with the snapshot it actually read) that respects real-time order",
+    "concurrent callers: results must be explainable by some serial order of the calls that respects real-time order and in which the snapshots appear in the order the kernel served them",
     "_common._wn.lock is replaced by a cooperative wrapper so that a blocked thread hands control back to the scheduler",
 ]
 REQUIRED_COUNTERS = ["nowrap_calls_checked", "wrap_events", "schedules_run"]
@@ -410,6 +410,9 @@ def run_schedule(scn, preempt, first):
         cur[0] = sch
         w.who = lambda: getattr(sch.idx, "i", None)
         pc._wn.lock = S.CoopLock(real_lock, lambda: cur[0])
+        other_locks = {nm: getattr(ps, nm) for nm in ("_net_io_lock", "_disk_io_lock") if hasattr(ps, nm)}
+        for nm, lk in other_locks.items():
+            setattr(ps, nm, S.CoopLock(lk, lambda: cur[0]))
         try:
             def prog(i):
                 def f():
@@ -423,20 +426,30 @@ def run_schedule(scn, preempt, first):
                             r = ps.net_io_counters(pernic=True, nowrap=True)
                             mine = [o for o in w.opened[n0:] if o[0] == i]
                             calls.append(dict(t=i, kind="call", step0=s0, step1=sch.step,
-                                              result={k: tuple(v) for k, v in r.items()}, snap=mine[0][2] if mine else None))
+                                              result={k: tuple(v) for k, v in r.items()}, snap=mine[0][2] if mine else None,
+                                              served=next(k_ for k_, o_ in enumerate(w.opened) if o_ is mine[0]) if mine else None))
                 return f
             sch.run([prog(0), prog(1)])
         finally:
             pc._wn.lock = real_lock
+            for nm, lk in other_locks.items():
+                setattr(ps, nm, lk)
             w.clear_all()
     return sch, calls, seed_snap
 
 
-def linearizable(calls, seed_snap):
+def linearizable(calls, seed_snap, kernel_order=True):
+    """Some serial order of the calls explains every result.  kernel_order: the snapshots enter the history in the order
+    the kernel handed them out - the raw counters only "go backwards" when the kernel's do, never because an older
+    snapshot was processed after a newer one."""
     n = len(calls)
     for perm in itertools.permutations(range(n)):
         pos = {c: i for i, c in enumerate(perm)}
         ok = True
+        if kernel_order:
+            served = [calls[ci].get("served") for ci in perm if calls[ci]["kind"] == "call" and calls[ci].get("served") is not None]
+            if served != sorted(served):
+                continue
         # per-thread order and real-time order
         for a in range(n):
             for b in range(n):
@@ -476,7 +489,10 @@ def run_sched_case(case, acc, seen):
     if not viols:
         acc.count("linearizability_checks")
         if not linearizable(calls, seed_snap):
-            viols.append(("not_linearizable", ctx + f" calls={calls}"))
+            mech = "not_linearizable"
+            if linearizable(calls, seed_snap, kernel_order=False):
+                mech = "older_snapshot_processed_after_newer_one_counts_as_wrap"
+            viols.append((mech, ctx + f" calls={calls}"))
     h = (case["scn"], sch.interleaving_hash())
     if h not in seen:
         seen.add(h)
@@ -536,7 +552,7 @@ def run_threads_case(case, acc):
                     t1 = now()
                     mine = [o for o in w.opened[n0:] if o[0] == i]
                     calls.append(dict(t=i, kind="call", step0=t0, step1=t1, result={k: tuple(v) for k, v in r.items()},
-                                      snap=mine[0][2] if mine else None))
+                                      snap=mine[0][2] if mine else None, served=next(k_ for k_, o_ in enumerate(w.opened) if o_ is mine[0]) if mine else None))
         except BaseException as e:  # noqa: BLE001
             errors.append((i, e))
 
@@ -571,7 +587,10 @@ def run_threads_case(case, acc):
         if overlapped:
             acc.count("free_running_histories_with_overlapping_calls")
         if not linearizable(calls, seed_snap):
-            viols.append(("not_linearizable", f"{ctx} calls={calls}"))
+            mech = "not_linearizable"
+            if linearizable(calls, seed_snap, kernel_order=False):
+                mech = "older_snapshot_processed_after_newer_one_counts_as_wrap"
+            viols.append((mech, f"{ctx} calls={calls}"))
     acc.case(dict(kind="threads", **case), overlapped, viols)
 
 
